@@ -218,4 +218,9 @@ def clone_val(v):
         return SetObj(list(v.items))
     if isinstance(v, Ident):
         return Ident(v.name, v.span, v.origin, v.raw)
+    if isinstance(v, Iter):
+        # an iterator is a cursor over shared storage: the clone has its own position (and own adaptor chain)
+        it = Iter(v.kind, clone_val(v.a) if isinstance(v.a, Iter) else v.a, clone_val(v.b) if isinstance(v.b, Iter) else v.b)
+        it.pos = v.pos
+        return it
     return v
